@@ -62,6 +62,7 @@ type JobResult struct {
 	Wall        float64
 	Inputs      int
 	KnownSeen   map[string]bool
+	Stats       string
 }
 
 var verbose bool
@@ -193,6 +194,7 @@ func runJob(prog *ssa.Program, pkgs map[string]*ssa.Package, job *Job) (res *Job
 	res.Reached = ex.reachedAny
 	res.Incon = ex.incon
 	res.MaxUnwind = ex.maxUnwind
+	res.Stats = fmt.Sprintf("incQ=%d restarts=%d oneShotBranch=%d cacheHits=%d", ex.inc.nq, ex.restarts, ex.oneShotBranch, ex.cacheHits)
 	res.KnownSeen = ex.knownSeen
 	for f := range ex.funcsSeen {
 		if f.Pkg != nil && ex.interpPkg(f.Pkg) && !strings.Contains(f.Name(), "verif") && !strings.HasPrefix(f.Name(), "Verif") && !strings.HasPrefix(f.Name(), "vf") {
